@@ -99,11 +99,12 @@ class DeathSuite(cc.ChanSuite):
             body = reader_ops(rd, len(data))
             if rng.random() < 0.3 and len(regs) > 1:
                 # end the innermost registration half way
-                body = body[: max(1, len(body) // 2)] + [["pop"]] + body[max(1, len(body) // 2):]
+                body = body[: max(1, len(body) // 2)] + [[rng.choice(["pop", "pop_exc"])]] + body[max(1, len(body) // 2):]
             ops += body
             yield {"pieces": cc.timed(pieces), "accept": [], "ops": ops, "meta": {"reader": rd}}
         yield from self.gen_nonlifo(tier, rng)
         yield from self.gen_siblings(tier, rng)
+        yield from self.gen_left_by_exception(tier, rng)
 
     def gen_siblings(self, tier, rng):
         """sibling contexts: a long string is watched while something is read, its context ends, then a short string
@@ -117,10 +118,27 @@ class DeathSuite(cc.ChanSuite):
             post = cc.rand_bytes(rng, rng.randint(len(short) + 1, 3 * len(short) + 4), b"xz\n ")
             second = pre + short + post
             rd = rng.choice(READERS)
-            ops = [["push_death", {"lit": long_s.hex()}, 0], ["read", len(first), None], ["pop"],
+            ops = [["push_death", {"lit": long_s.hex()}, 0], ["read", len(first), None], [rng.choice(["pop", "pop_exc"])],
                    ["push_death", {"lit": short.hex()}, 1]] + reader_ops(rd, len(second))
             pieces = [first] + ([second] if rng.random() < 0.6 else cc.rand_split(rng, second, 3))
             yield {"pieces": cc.timed(pieces), "accept": [], "ops": ops, "meta": {"reader": rd, "kind": "siblings"}}
+
+    def gen_left_by_exception(self, tier, rng):
+        """a registration context left by an exception raised in its body: the string is no longer watched afterwards,
+        whatever reads follow (nested: the outer one still is)"""
+        for _ in range(600 if tier == "thorough" else 150):
+            inner = rng.choice([b"ab", b"tee: ", b"Login incorrect"])
+            outer = rng.choice([b"Kernel panic", b"yyy"])
+            first = cc.rand_bytes(rng, rng.randint(1, 6), b"xz\n ")
+            tail = cc.rand_bytes(rng, rng.randint(0, 4), b"xz\n ") + inner + cc.rand_bytes(rng, rng.randint(0, 6), b"xz\n ")
+            if rng.random() < 0.4:
+                tail += outer + b"zz"
+            rd = rng.choice(READERS)
+            nested = rng.random() < 0.5
+            ops = ([["push_death", {"lit": outer.hex()}, 1]] if nested else []) + \
+                [["push_death", {"lit": inner.hex()}, 0], ["read", len(first), None], ["pop_exc"]] + reader_ops(rd, len(tail))
+            pieces = [first] + ([tail] if rng.random() < 0.5 else cc.rand_split(rng, tail, 3))
+            yield {"pieces": cc.timed(pieces), "accept": [], "ops": ops, "meta": {"reader": rd, "kind": "left-by-exception"}}
 
     def gen_nonlifo(self, tier, rng):
         """registrations that are not undone in LIFO order: add_death_string (permanent) inside a context,
@@ -168,7 +186,7 @@ class DeathSuite(cc.ChanSuite):
             if k == "add_death":
                 active.insert(0, (o[1], o[2], consumed, idx))
                 continue
-            if k == "pop":
+            if k in ("pop", "pop_exc"):
                 if stack:
                     rid = stack.pop()
                     active = [a for a in active if a[3] != rid]
